@@ -5,6 +5,8 @@ from univers.version_constraint import VersionConstraint
 
 MODULES = ["Univers.Props.C09", "Univers.Props.Schemes"]
 LEVEL = "proof"
+# function-level tie (translator + agreement theorems): see runner step 3a
+TIE_THEOREMS = {"Univers.Vers.GenConMethodsThm": ["Univers.Gen.LayerB.con_is_star_eq", "Univers.Gen.LayerB.con_invert_eq"]}
 RULE = ("bounded-exhaustive: every comparator sequence up to length L on version-sorted distinct versions; the real "
         "range.invert() is compared constraint by constraint with the Lean model, its membership with the complement "
         "of the spec `denote` at every probe position, and invert().invert() with the original; single constraints: "
@@ -16,7 +18,7 @@ ASSUMPTIONS = [
 
 
 def correspondence(ctx):
-    L = 6 if ctx.thorough else 4
+    L = 6 if ctx.thorough else (5 if ctx.deepen else 4)
     jobs = []
     for n in range(1, L + 1):
         for p in B.all_patterns(n):
